@@ -8,9 +8,12 @@ git diff -- crates > /tmp/cur.$$.diff; if diff -q /tmp/cur.$$.diff seed-out/patc
 echo "== suite with change" >> "$LOG"
 cargo test --workspace --offline 2>&1 | grep -E "^test result|FAILED|failed|^error" >> "$LOG"
 echo "== demo with change" >> "$LOG"
-( sh seed-out/demo.sh ) >> "$LOG" 2>&1; echo "demo exit with change: $?" >> "$LOG"
+cargo build --offline -p ast-grep >/dev/null 2>&1
+( bash seed-out/demo.sh ) >> "$LOG" 2>&1; echo "demo exit with change: $?" >> "$LOG"
 git stash -q -- crates
 echo "== demo without change" >> "$LOG"
-( sh seed-out/demo.sh ) >> "$LOG" 2>&1; echo "demo exit without change: $?" >> "$LOG"
+cargo build --offline -p ast-grep >/dev/null 2>&1
+( bash seed-out/demo.sh ) >> "$LOG" 2>&1; echo "demo exit without change: $?" >> "$LOG"
 git stash pop -q
+cargo build --offline -p ast-grep >/dev/null 2>&1
 echo "== done" >> "$LOG"
